@@ -72,7 +72,9 @@ class Fork:
                                 x = next(self.instream)
                             except StopIteration:
                                 raise
-                            except Exception as e:
+                            except BaseException as e:
+                                # Not only `Exception`: the other forks need to see whatever
+                                # ended the input stream.
                                 self.head.value = TeeX(_SourceError(e))
                             else:
                                 box = TeeX(x)
@@ -117,10 +119,10 @@ class Fork:
                             # The next call to `__next__` will land
                             # in the first branch and raise `StopIteration`.
                             pass
-                        except Exception as e:
-                            # `instream` failed. Do not raise now: the current element
-                            # has not been returned yet, the lock must be released,
-                            # and the other forks need to see the failure as well.
+                        except BaseException as e:
+                            # `instream` failed (not only with an `Exception`). Do not raise now:
+                            # the current element has not been returned yet, the lock must be
+                            # released, and the other forks need to see the failure as well.
                             self.next.next = TeeX(_SourceError(e))
                         else:
                             box = TeeX(x)
